@@ -61,6 +61,8 @@ pub fn fixed_step_ref(p: &str, value: &str, o: &Opts) -> RefOut {
         if o.vowel && (p.is_empty() || after_vowel || after_punct) {
             return match indep_for_sign(c) {
                 Some(v) => RefOut::Text(format!("{}{}", p, v)),
+                // VOWEL SIGN VOCALIC RR -> LETTER VOCALIC RR (finding F18)
+                None if c == '\u{09C4}' => RefOut::Text(format!("{}\u{09E0}", p)),
                 None => RefOut::Unspecified("rare sign has no matching independent vowel"),
             };
         }
@@ -68,6 +70,10 @@ pub fn fixed_step_ref(p: &str, value: &str, o: &Opts) -> RefOut {
             return RefOut::Unspecified("auto vowel after a rare sign");
         }
         if o.chandra && rmc == Some(CHANDRA) {
+            if matches!(c, '\u{09E2}' | '\u{09E3}') {
+                // the engine does not count the vocalic L / LL signs among the vowel signs; the statement does not name them
+                return RefOut::Unspecified("vocalic L / LL sign after chandrabindu");
+            }
             return RefOut::Text(format!("{}{}{}", drop_last(p), c, CHANDRA));
         }
         if rmc == Some(HASANTA) {
